@@ -1021,6 +1021,123 @@ template <class T, class CSI, class... LY> void planar_access_all() {
 }
 #endif
 
+// ---- compatibility traits and conversion between models whose colours have different channel types ----
+// pixels_are_compatible / views_are_compatible decide, by colour NAME, whether two models may be assigned / compared
+// and whether copy_and_convert_pixels copies or converts.  Expected verdict from the harness's own description of a
+// model: same colour space and, for every colour name, the same channel value type (u8, u16, f32, packed N bits).
+// Heterogeneous packed / bit-aligned models with pairwise distinct widths make a memory-order pairing visible.
+#if C05_PART == 11 || C05_PART == 12
+template <int K, unsigned... S> struct nth_size { static constexpr unsigned v() { constexpr unsigned a[] = {S...}; return a[K]; } };
+template <class H> struct chan_info;
+template <class T, class LY> struct chan_info<H_pix<T, LY>> {
+    static std::string desc(int) { return RT<T>::name(); }
+    template <int K> struct chan { typedef T type; };
+    typedef typename gil::type_from_x_iterator<typename H_pix<T, LY>::gil_t*>::view_t view_t;
+};
+template <class T, class CSI, bool M> struct chan_info<H_planar<T, CSI, M>> {
+    static std::string desc(int) { return RT<T>::name(); }
+    template <int K> struct chan { typedef T type; };
+    typedef typename gil::type_from_x_iterator<typename H_planar<T, CSI, M>::it_t>::view_t view_t;
+};
+template <class BF, class LY, unsigned... S> struct chan_info<H_packed<BF, LY, S...>> {
+    static std::string desc(int k) { return vh::cat("p", bit_table<LY, S...>::ssize(k)); }
+    template <int K> struct chan { typedef gil::packed_channel_value<nth_size<K, S...>::v()> type; };
+    typedef typename gil::type_from_x_iterator<typename H_packed<BF, LY, S...>::gil_t*>::view_t view_t;
+};
+template <class BF, class LY, bool M, unsigned... S> struct chan_info<H_bits<BF, LY, M, S...>> {
+    static std::string desc(int k) { return vh::cat("p", bit_table<LY, S...>::ssize(k)); }
+    template <int K> struct chan { typedef gil::packed_channel_value<nth_size<K, S...>::v()> type; };
+    typedef typename gil::type_from_x_iterator<gil::bit_aligned_pixel_iterator<typename H_bits<BF, LY, M, S...>::gil_t const>>::view_t view_t;
+};
+template <class A, class B> bool expect_compatible() {
+    if (!std::is_same<typename A::csi, typename B::csi>::value) return false;
+    for (int k = 0; k < (int)A::N; ++k) if (chan_info<A>::desc(k) != chan_info<B>::desc(k)) return false;
+    return true;
+}
+#endif
+#if C05_PART == 11
+template <class A, class B> void trait_cell() {
+    bool want = expect_compatible<A, B>();
+    bool got = gil::pixels_are_compatible<typename A::gil_t, typename B::gil_t>::value;
+    bool gotv = gil::views_are_compatible<typename chan_info<A>::view_t, typename chan_info<B>::view_t>::value;
+    g_evals += 2;
+    if (got != want) vh::viol(vh::cat("pixels_are_compatible.", want ? "false-negative." : "false-positive.", A::name(), "~", B::name()),
+                              vh::cat("pixels_are_compatible says ", got, "; by colour name the channel types are ", want ? "the same" : "not the same / the colour spaces differ"));
+    if (gotv != want) vh::viol(vh::cat("views_are_compatible.", want ? "false-negative." : "false-positive.", A::name(), "~", B::name()),
+                               vh::cat("views_are_compatible of their views says ", gotv, ", expected ", want));
+    vh::obs(want ? "compat-table.compatible" : "compat-table.incompatible");
+}
+template <class A, class... B> void trait_row(const char* group, TL<B...>) {
+    if (!vh::begin_case(vh::cat("compat-table.", group), A::name())) return;
+    uint64_t e0 = g_evals;
+    using sw = int[]; (void)sw{0, (trait_cell<A, B>(), 0)...};
+    vh::evals(g_evals - e0); vh::distinct(sizeof...(B));
+}
+template <class... A, class BL> void trait_table(const char* group, TL<A...>, BL b) { using sw = int[]; (void)sw{0, (trait_row<A>(group, b), 0)...}; }
+#endif
+#if C05_PART == 12
+// copy_and_convert_pixels / color_convert / color_converted_view between models of one colour space: every colour of the
+// destination is channel_convert of the source's colour of the same name (the identity when the channel types agree).
+template <class SH, class DH> void convert_pair(const char* group) {
+    enum { N = SH::N, NPIX = 5 };
+    typedef typename SH::csi csi;
+    typedef typename SH::gil_t SP; typedef typename DH::gil_t DP;
+    std::string pk = SH::name() + "->" + DH::name();
+    if (!vh::begin_case(vh::cat("convert.", group), pk)) return;
+    vh::rng r = vh::case_rng();
+    uint64_t e0 = g_evals;
+    const bool compat = expect_compatible<SH, DH>();
+    int rounds = vh::thorough() ? 200 : 24;
+    for (int round = 0; round < rounds; ++round) {
+        SP sp[NPIX]; DP dp[NPIX]; DP dp2[NPIX];
+        double a[NPIX][N], want[NPIX][N];
+        SH sh; DH dh;
+        for (int i = 0; i < NPIX; ++i) {
+            for (int k = 0; k < N; ++k) {
+                if (round < N) a[i][k] = (k == (round + i) % N) ? SH::maxv(k) : 0;
+                else if (round == N) a[i][k] = SH::maxv(k);
+                else a[i][k] = SH::is_float ? (double)(float)r.unit() : (double)r.below((uint64_t)SH::maxv(k) + 1);
+            }
+            fill(sh, a[i]); memcpy(&sp[i], sh.base(), sizeof(SP));
+            fill_junk(dh, a[i]); memcpy(&dp[i], dh.base(), sizeof(DP)); memcpy(&dp2[i], dh.base(), sizeof(DP));
+            auto f = [&](auto kc) {
+                constexpr int K = decltype(kc)::value;
+                typedef typename chan_info<SH>::template chan<K>::type SC;
+                typedef typename chan_info<DH>::template chan<K>::type DC;
+                want[i][K] = to_raw(gil::channel_convert<DC>(mk<SC>::make(a[i][K])));
+            };
+            KLoop<0, N>::run(f);
+        }
+        auto sv = gil::interleaved_view(NPIX, 1, &sp[0], NPIX * sizeof(SP));
+        auto dv = gil::interleaved_view(NPIX, 1, &dp[0], NPIX * sizeof(DP));
+        gil::copy_and_convert_pixels(sv, dv);
+        auto ccv = gil::color_converted_view<DP>(sv);
+        for (int i = 0; i < NPIX; ++i) {
+            gil::color_convert(sp[i], dp2[i]);
+            DP viaview = ccv(i, 0);
+            DH d1, d2, d3;
+            memcpy(d1.base(), &dp[i], sizeof(DP)); memcpy(d2.base(), &dp2[i], sizeof(DP)); memcpy(d3.base(), &viaview, sizeof(DP));
+            g_evals += 3;
+            for (int k = 0; k < N; ++k) {
+                const char* what = d1.get(k) != want[i][k] ? "copy_and_convert_pixels" : d2.get(k) != want[i][k] ? "color_convert" : d3.get(k) != want[i][k] ? "color_converted_view" : nullptr;
+                if (what) {
+                    double gotv = d1.get(k) != want[i][k] ? d1.get(k) : d2.get(k) != want[i][k] ? d2.get(k) : d3.get(k);
+                    vh::viol(vh::cat(what, compat ? ".same-channel-types." : ".rescale.", pk),
+                             vh::cat("colour ", csi::cname(k), ": source ", a[i][k], " (", chan_info<SH>::desc(k), ") arrived as ", gotv, " (", chan_info<DH>::desc(k), "), channel_convert gives ", want[i][k], "; source colours ", vec_str<N>(a[i])));
+                    break;
+                }
+            }
+        }
+        uint64_t hh = vh::hash_str(pk); hh = vh::hash_bytes(a, sizeof a, hh);
+        vh::distinct_hash(hh);
+    }
+    vh::evals(g_evals - e0);
+    vh::obs(compat ? "convert.same-channel-types" : "convert.rescale");
+}
+template <class S, class... D> void convert_row(const char* g, TL<D...>) { using sw = int[]; (void)sw{0, (convert_pair<S, D>(g), 0)...}; }
+template <class... S, class DL> void convert_all(const char* g, TL<S...>, DL d) { using sw = int[]; (void)sw{0, (convert_row<S>(g, d), 0)...}; }
+#endif
+
 // ---- enumeration -------------------------------------------------------------------------------------------
 template <class S, class... D> void pairs_row(const char* g, TL<D...>) { using sw = int[]; (void)sw{0, (check_pair<S, D>(g), 0)...}; }
 template <class... S, class DL> void all_pairs(const char* g, TL<S...>, DL d) { using sw = int[]; (void)sw{0, (pairs_row<S>(g, d), 0)...}; }
@@ -1145,6 +1262,38 @@ int main(int argc, char** argv) {
     planar_access_all<uint8_t, CS_cmyk, L_cmyk, L_kymc>();
     planar_access_all<uint8_t, CS_dev<2>, L_dev2x>();
     planar_access_all<uint8_t, CS_dev<5>, L_dev5r>();
+#elif C05_PART == 11
+    {
+        // rgb: homogeneous models and packed / bit-aligned models of four size sets (per colour r-g-b) in both layouts
+#define RGB_SET(BF, BFB, A, B, C) H_packed<BF, L_rgb, A, B, C>, H_packed<BF, L_bgr, A, B, C>, H_bits<BFB, L_rgb, true, A, B, C>, H_bits<BFB, L_bgr, false, A, B, C>
+        typedef TL<H_pix<uint8_t, L_rgb>, H_pix<uint8_t, L_bgr>, H_pix<uint16_t, L_rgb>, H_pix<gil::float32_t, L_bgr>, H_planar<uint8_t, CS_rgb, true>, H_planar<uint16_t, CS_rgb, false>,
+                   RGB_SET(uint16_t, uint16_t, 2, 3, 4), RGB_SET(uint16_t, uint16_t, 4, 3, 2), RGB_SET(uint16_t, uint32_t, 5, 6, 5), RGB_SET(uint8_t, uint16_t, 1, 2, 1),
+                   H_pix<uint8_t, L_rgba>, H_pix<uint8_t, L_cmyk>> rgb_models;
+        trait_table("rgb", rgb_models(), rgb_models());
+#define RGBA_SET(BF, BFB, A, B, C, D) H_packed<BF, L_rgba, A, B, C, D>, H_packed<BF, L_bgra, A, B, C, D>, H_packed<BF, L_argb, A, B, C, D>, H_packed<BF, L_abgr, A, B, C, D>, \
+        H_bits<BFB, L_rgba, true, A, B, C, D>, H_bits<BFB, L_bgra, false, A, B, C, D>, H_bits<BFB, L_argb, true, A, B, C, D>, H_bits<BFB, L_abgr, false, A, B, C, D>
+        typedef TL<H_pix<uint8_t, L_rgba>, H_pix<uint8_t, L_bgra>, H_pix<uint8_t, L_argb>, H_pix<uint8_t, L_abgr>, H_pix<uint16_t, L_argb>, H_planar<uint8_t, CS_rgba, true>,
+                   RGBA_SET(uint16_t, uint32_t, 1, 2, 3, 4), RGBA_SET(uint16_t, uint32_t, 4, 3, 2, 1), RGBA_SET(uint16_t, uint32_t, 5, 5, 5, 1),
+                   H_pix<uint8_t, L_cmyk>, H_pix<uint8_t, L_kymc>, H_pix<uint8_t, L_rgb>> rgba_models;
+        trait_table("rgba", rgba_models(), rgba_models());
+    }
+#elif C05_PART == 13
+    // assignment / construction / equality / static_* by name where every colour has its own width (and its own position per layout)
+    packed_family<uint16_t, 2, 3, 4>::run("rgb", TL<L_rgb, L_bgr>());
+    packed_family<uint16_t, 1, 2, 3, 4>::run_dst<L_argb>("rgba", rgba_layouts());
+#elif C05_PART == 12
+    {
+        typedef TL<H_packed<uint16_t, L_rgb, 2, 3, 4>, H_packed<uint16_t, L_bgr, 2, 3, 4>, H_packed<uint16_t, L_rgb, 4, 3, 2>, H_packed<uint16_t, L_bgr, 4, 3, 2>,
+                   H_packed<uint16_t, L_rgb, 5, 6, 5>, H_packed<uint16_t, L_bgr, 5, 6, 5>, H_packed<uint8_t, L_bgr, 1, 2, 1>> rgbp;
+        convert_all("rgb.packed", rgbp(), rgbp());
+        typedef TL<H_packed<uint16_t, L_rgba, 1, 2, 3, 4>, H_packed<uint16_t, L_argb, 1, 2, 3, 4>, H_packed<uint16_t, L_abgr, 4, 3, 2, 1>, H_packed<uint16_t, L_bgra, 4, 3, 2, 1>,
+                   H_packed<uint16_t, L_argb, 5, 5, 5, 1>> rgbap;
+        convert_all("rgba.packed", rgbap(), rgbap());
+        typedef TL<H_pix<uint8_t, L_rgb>, H_pix<uint8_t, L_bgr>, H_pix<uint16_t, L_rgb>, H_pix<uint16_t, L_bgr>> rgbh;
+        convert_all("rgb.homogeneous", rgbh(), rgbh());
+        typedef TL<H_pix<uint8_t, L_argb>, H_pix<uint16_t, L_bgra>, H_pix<uint16_t, L_abgr>> rgbah;
+        convert_all("rgba.homogeneous", rgbah(), rgbah());
+    }
 #endif
     return vh::finish();
 }
